@@ -717,3 +717,19 @@ package tq
 //@   at call (*tq.SSHAdapter).upload:1 assert a.adapterBase.direction == Upload && arg1__ == t
 //@   at call (*tq.SSHAdapter).download:1 assert a.adapterBase.direction != Upload && arg1__ == t
 //@   ensures @C03 result == nil && a.adapterBase.direction == Upload ==> sshverified(t)
+
+// C03, tus.io adapter: an upload is reported done (nil) only if the server
+// itself said it already holds all of the object (HEAD: Upload-Offset >= size)
+// or the rest of the transfer's own file was sent from that offset, answered
+// 2xx, and the object was verified.
+//@ func (*tusUploadAdapter).DoTransfer
+//@   props C03
+//@   requires @inv a != nil && t != nil && a.apiClient != nil
+//@   at call (*tq.adapterBase).newHTTPRequest:1 assert @C03 arg1__ == "HEAD" && arg2__ == rel && rel != nil
+//@   at call (*tq.adapterBase).newHTTPRequest:2 assert @C03 arg1__ == "PATCH" && arg2__ == rel && offset >= 0 && offset < t.Size
+//@   at call os.OpenFile:1 assert @C03 arg0__ == t.Path && arg1__ == 0
+//@   at call (*tq.adapterBase).doHTTP:* assert @C03 arg1__ == t && arg2__ == req
+//@   at call (*lfsapi.Client).LogRequest:1 assert @C03 arg1__ == req && req.ContentLength == t.Size - offset
+//@   at call tq.verifyUpload:1 assert @C03 arg2__ == t && res != nil && res.StatusCode <= 299 && res.StatusCode != 403
+//@   ensures @C03 defined(offset) ==> (result == nil ==> verified(t) || offset >= t.Size)
+//@   ensures @C03 !defined(offset) ==> result != nil
